@@ -82,6 +82,7 @@ type Interp struct {
 	trace   []decision
 	nondets []*nondetRec
 	pcLen   int
+	elastic int // >0 while a sequentialised producer goroutine runs: channel sends never block
 
 	globals  map[*ssa.Global]*Cell
 	pkgInit  map[*ssa.Package]int
@@ -1385,6 +1386,12 @@ func (it *Interp) exec(fr *frame, ins ssa.Instruction) {
 		if f := c.StaticCallee(); f != nil && it.h.cfg.skipGo(f.String()) {
 			return
 		}
+		if f := c.StaticCallee(); f != nil && it.h.cfg.eagerGo(f.String()) {
+			it.elastic++
+			it.doCall(fr, c, x.Pos())
+			it.elastic--
+			return
+		}
 		panic(unsupported("go statement: " + x.String()))
 	case *ssa.Send:
 		ch := it.get(fr, x.Chan).(*ChanV)
@@ -1394,7 +1401,7 @@ func (it *Interp) exec(fr *frame, ins ssa.Instruction) {
 		if ch.ch.closed {
 			it.goPanicf("send on closed channel")
 		}
-		if len(ch.ch.buf) >= ch.ch.cap {
+		if len(ch.ch.buf) >= ch.ch.cap && it.elastic == 0 {
 			panic(unsupported("blocking channel send"))
 		}
 		ch.ch.buf = append(ch.ch.buf, it.get(fr, x.X))
@@ -2297,7 +2304,7 @@ func (it *Interp) selectOp(fr *frame, x *ssa.Select) Value {
 				return r
 			}
 		} else {
-			if !ch.ch.closed && len(ch.ch.buf) < ch.ch.cap {
+			if !ch.ch.closed && (len(ch.ch.buf) < ch.ch.cap || it.elastic > 0) {
 				ch.ch.buf = append(ch.ch.buf, it.get(fr, st.Send))
 				r := TupleV{ts.BV(uint64(i), 64), ts.Bool(false)}
 				for _, st2 := range x.States {
